@@ -418,6 +418,12 @@ def project(o, ctx, fresh=True):
     return T('leaf', ctx.id_of(o, fresh))
 
 
+def subtrees(t):
+    yield t
+    for c in t['ch']:
+        yield from subtrees(c)
+
+
 def leaf_ids(objs, ctx):
     return [ctx.id_of(o) for o in objs]
 
